@@ -3,6 +3,7 @@ package checks
 import (
 	"fmt"
 	"math"
+	"os"
 	"strings"
 	"time"
 
@@ -173,6 +174,32 @@ func init() {
 					})
 				}
 			}
+			// the two modes written to the same path one after the other
+			w.Case("rewrite/normal-stub-normal", func(c *C) {
+				cfg := &Cfg{Meta: stdMeta(), Params: []Param{{"pLong", strings.Repeat("long value ", 200)}},
+					Services: []Service{{Name: "one", Constructor: P("pk.New"), Args: []any{"%pLong%"}, Getter: P("GetOne"), Type: P("*pk.Obj"), MustGetter: P(true)}, {Name: "two", Value: P("&pk2.Obj{}")}}}
+				w.FreshDir()
+				os.WriteFile("c.yaml", []byte(cfg.YAML()), 0o644)
+				c.Distinct("all", c.ID)
+				c.Distinct("nontrivial", c.ID)
+				for si, flags := range [][]string{nil, {"--stub"}, nil, {"--stub"}} {
+					r := Tool(DefaultVersion, DefaultBuildInfo, append([]string{"-i", "c.yaml", "-o", "out.go"}, flags...)...)
+					got, _ := os.ReadFile("out.go")
+					os.Remove("fresh.go")
+					Tool(DefaultVersion, DefaultBuildInfo, append([]string{"-i", "c.yaml", "-o", "fresh.go"}, flags...)...)
+					want, _ := os.ReadFile("fresh.go")
+					if !r.OK() || string(got) != string(want) {
+						c.Violation("rewrite-differs", fmt.Sprintf("step %d (flags %v): the file written over the other mode's output differs from a fresh build (%d vs %d bytes): %s", si, flags, len(got), len(want), firstDiff(string(want), string(got))), map[string]string{"c.yaml": cfg.YAML()}, nil)
+						return
+					}
+					if len(flags) > 0 {
+						gs := Analyze(w.TC(true), string(got), nil)
+						if len(gs.Errs) > 0 || !gs.HasStubTag || len(gs.UserValueRefs) > 0 {
+							c.Violation("rewritten-stub-not-a-stub", fmt.Sprintf("the stub written over the normal output is not a clean stub: errors %v, value references %v", gs.Errs, gs.UserValueRefs), map[string]string{"c.yaml": cfg.YAML()}, nil)
+						}
+					}
+				}
+			})
 			// getter truth table rows in both modes
 			for g := 0; g < 2; g++ {
 				for _, ty := range c13types {
